@@ -68,8 +68,13 @@ pub(crate) fn run() -> (Result<(), Error>, Option<StdinLogReader>) {
         let mut server;
         {
             let mut ptx = ProcessTransaction::new(&mut ps, TransactionBehavior::Immediate)?;
+            // The helper that redo-unlocked starts to rebuild the uncertain
+            // dependencies of a target being checked still carries the name
+            // of the script that asked for that check: what it rebuilds is not
+            // a dependency of that script.
             let f = if !ptx.state().env().target().as_os_str().is_empty()
                 && !ptx.state().env().is_unlocked()
+                && !ptx.state().env().is_oob_helper()
             {
                 let mut me = PathBuf::new();
                 me.push(ptx.state().env().startdir());
